@@ -39,6 +39,9 @@ func envStr(name, def string) string {
 
 func verifDir() string { return envStr("VERIF_DIR", "/verif") }
 
+// outDir is where evidence and replay files go (the real tree: /verif; scratch copies: elsewhere).
+func outDir() string { return envStr("VERIF_OUT_DIR", verifDir()) }
+
 // ---------------------------------------------------------------- known findings
 
 type KnownFinding struct {
@@ -463,7 +466,7 @@ func runnerMain(t *testing.T) {
 	exit := 0
 	seen := map[string]bool{}
 	nv := 0
-	_ = os.MkdirAll(filepath.Join(verifDir(), "replays"), 0o755)
+	_ = os.MkdirAll(filepath.Join(outDir(), "replays"), 0o755)
 	for _, tr := range viols {
 		key := tr.Viol.ShapeKey()
 		if seen[key] {
@@ -472,7 +475,7 @@ func runnerMain(t *testing.T) {
 		seen[key] = true
 		nv++
 		name := fmt.Sprintf("%s-%016x.json", pid, hashSig(key+fmt.Sprint(tr.Seed)))
-		path := filepath.Join(verifDir(), "replays", name)
+		path := filepath.Join(outDir(), "replays", name)
 		b, _ := json.MarshalIndent(tr, "", " ")
 		_ = os.WriteFile(path, b, 0o644)
 		// verify in a fresh process
@@ -546,9 +549,9 @@ func runnerMain(t *testing.T) {
 			"workers":              nw,
 			"exhaustive":           p.Fixed != nil && p.Fixed(tier) > 0 && total.Runs >= p.Fixed(tier),
 		}}
-	_ = os.MkdirAll(filepath.Join(verifDir(), "evidence"), 0o755)
+	_ = os.MkdirAll(filepath.Join(outDir(), "evidence"), 0o755)
 	b, _ := json.MarshalIndent(ev, "", " ")
-	if err := os.WriteFile(filepath.Join(verifDir(), "evidence", pid+".json"), b, 0o644); err != nil {
+	if err := os.WriteFile(filepath.Join(outDir(), "evidence", pid+".json"), b, 0o644); err != nil {
 		fmt.Fprintln(os.Stderr, "harness: cannot write evidence:", err)
 		os.Exit(2)
 	}
